@@ -18,7 +18,8 @@ from pygradflow.status import SolverStatus
 def groups(n, seed):
     rng = np.random.default_rng(seed)
     gs = []
-    kinds_cycle = [["eq0", "lower"], ["eq", "ranged"], ["upper", "ranged", "eq0"], ["lower", "upper"], ["eq"], []]
+    kinds_cycle = [["eq0", "lower"], ["eq", "ranged"], ["upper", "ranged", "eq0"], ["lower", "upper"], ["eq"], [],
+                   ["narrow"], ["narrow", "eq0"], ["ranged", "narrow"]]
     for i in range(n):
         if i % 5 == 0:
             ps = ("repo", ["hs71", "hs71c", "tame", "rosenbrock"][(i // 5) % 4])
@@ -93,7 +94,7 @@ def main():
         chk.case(("integration", name, res.status.name))
         kkt = {"boundsExact": True, "rows": [], "vars": []}
         if res.status == SolverStatus.Optimal:
-            kkt = oracle.kkt_classes(prob, None, params, res.x, res.y, res.d)
+            kkt = oracle.kkt_classes(prob, None, params, res.x, res.y, res.d, rel_slack=1e-6)
         recs.append({"solver": "integration", "name": name, "status": res.status.name, "kkt": kkt})
     if recs:
         d = tempfile.mkdtemp(prefix="gf_kkt_")
